@@ -7,7 +7,7 @@ VERIF = os.path.dirname(TOOLS)
 BUILD = os.environ.get('VERIF_BUILD_DIR') or os.path.join(VERIF, 'build')
 REPO_SRC = os.environ.get('VERIF_REPO_SRC', '/repo/src')
 REPO_ROOT = os.path.dirname(os.path.abspath(REPO_SRC))
-SUPPORTED = {'C20', 'C15', 'C11', 'C12', 'C06', 'C09', 'C17', 'C08', 'C13'}
+SUPPORTED = {'C20', 'C15', 'C11', 'C12', 'C06', 'C09', 'C17', 'C08', 'C13', 'C01', 'C02', 'C03', 'C04', 'C05', 'C07', 'C10', 'C14', 'C16', 'C18', 'C19'}
 
 
 def build():
@@ -15,7 +15,8 @@ def build():
     tag = hashlib.sha1(REPO_ROOT.encode()).hexdigest()[:10]
     crate = os.path.join(BUILD, 'replay_crate_' + tag)
     os.makedirs(os.path.join(crate, 'src'), exist_ok=True)
-    shutil.copyfile(os.path.join(VERIF, 'replay', 'src', 'main.rs'), os.path.join(crate, 'src', 'main.rs'))
+    for fn_ in os.listdir(os.path.join(VERIF, 'replay', 'src')):
+        shutil.copyfile(os.path.join(VERIF, 'replay', 'src', fn_), os.path.join(crate, 'src', fn_))
     root = REPO_ROOT
     if not os.path.exists(os.path.join(root, 'Cargo.toml')):
         # a bare copy of src/: give it the manifest of /repo
